@@ -69,11 +69,19 @@ LookupOK(st, e) == e.res = e.x
 RelOK(st, e) == e.res = e.b /\ Resolve(st, e.a, e.path) = e.b
 SeqSet(s) == {s[i] : i \in DOMAIN s}
 Monotone(st, c, s) == \A i, j \in DOMAIN s : i < j => Level(st, c, s[i]) <= Level(st, c, s[j])
+\* e.filt: "none", or "sel" = the filter "named a" for Sections and Properties / "is empty" for value lists
+\* (st.nvals[p]: number of values of Property p)
+SelObj(st, e, S) == IF e.filt = "none" THEN S ELSE {y \in S : st.name[y] = "a"}
+SelVal(st, e, S) == IF e.filt = "none" THEN S ELSE {p \in S : st.nvals[p] = 0}
 IterOK(st, e) ==
-   /\ NoDup(e.secs) /\ SeqSet(e.secs) = SecsBelow(st, e.start, e.depth, e.yieldself) /\ Monotone(st, e.start, e.secs)
-   /\ NoDup(e.props) /\ SeqSet(e.props) = PropsBelow(st, e.start, e.depth)
-   /\ NoDup(e.vals) /\ SeqSet(e.vals) = PropsBelow(st, e.start, e.depth)
-Matches(st, y, key, type) == (key = "none" \/ st.name[y] = key) /\ (type = "none" \/ st.type[y] = type)
+   /\ NoDup(e.secs) /\ SeqSet(e.secs) = SelObj(st, e, SecsBelow(st, e.start, e.depth, e.yieldself)) /\ Monotone(st, e.start, e.secs)
+   /\ NoDup(e.props) /\ SeqSet(e.props) = SelObj(st, e, PropsBelow(st, e.start, e.depth))
+   /\ NoDup(e.vals) /\ SeqSet(e.vals) = SelVal(st, e, PropsBelow(st, e.start, e.depth))
+\* a type matches exactly or, when sub-types are included, as one of the leading '/'-separated parts of the
+\* object's type (st.typeparts[t]: the parts of type t, lower case)
+LeadingParts(st, t) == {st.typeparts[t][i] : i \in 1 .. (Len(st.typeparts[t]) - 1)}
+Matches(st, y, key, type, sub) == /\ (key = "none" \/ st.name[y] = key)
+                                  /\ (type = "none" \/ st.type[y] = type \/ (sub /\ type \in LeadingParts(st, st.type[y])))
 ChildrenOf(st, c) == SeqSet(st.kids[c])
 Descendants(st, c) == {y \in Secs(st) : Level(st, c, y) >= 1}
 Siblings(st, c) == IF st.kind[c] = "doc" \/ st.par[c] = NONE THEN {} ELSE ChildrenOf(st, st.par[c])
@@ -83,7 +91,7 @@ Scope(st, e) == IF e.fn = "find" THEN ChildrenOf(st, e.start)
                      \cup (IF e.siblings THEN Siblings(st, e.start) ELSE {})
                      \cup (IF e.parents THEN (IF e.recursive THEN Ancestors(st, e.start)
                                                ELSE (Ancestors(st, e.start) \cap (IF st.kind[e.start] = "doc" THEN {} ELSE {st.par[e.start]}))) ELSE {})
-Hits(st, e) == {y \in Scope(st, e) : Matches(st, y, e.key, e.type)}
+Hits(st, e) == {y \in Scope(st, e) : Matches(st, y, e.key, e.type, e.sub)}
 \* sound (only matching objects of the requested relation) and complete (one if any; all with findAll)
 FindOK(st, e) == /\ SeqSet(e.res) \subseteq Hits(st, e)
                  /\ (Hits(st, e) # {} => e.res # <<>>)
